@@ -1,7 +1,7 @@
 (* C11: the analytic kernel gradients are the true derivatives, for every expression tree *)
 From Coq Require Import Reals List ZArith Lra Lia.
 From Coquelicot Require Import Coquelicot.
-From MellonV Require Import ALists AKernels AKExpr AListsFacts AProfiles AKernelsThm.
+From MellonV Require Import ALists AKernels AKExpr AListsFacts AProfiles ADistThm.
 Import ListNotations.
 Open Scope R_scope.
 
@@ -195,6 +195,6 @@ Proof.
   - split; [dims_ok_tac|]. split.
     + split; [dims_ok_tac|]. split; [dims_ok_tac|]. split; [lra|exact I].
     + cbn [keval]. unfold Add_k_kc, select_active_dims. cbn [base_k].
-      match goal with |- 0 < ExpQuad_k ?l ?d + _ => pose proof (ExpQuad_pos l d) end. lra.
+      match goal with |- 0 < ExpQuad_k ?l ?d + _ => assert (0 < ExpQuad_k l d) by apply exp_pos end. lra.
   - split; [dims_ok_tac|]. split; lra.
 Qed.
